@@ -244,8 +244,7 @@ def inlined(fx, fn, depth=3, stop=(), _seen=None, _cache={}):
         return _cache[key]
     seen = set(_seen or ()) | {fn.path}
     import expand
-    if not synthetic:
-        fn = expand.expanded(fx, fn)
+    fn = expand.expanded(fx, fn)
     blocks = [dict(b, origin=b.get("origin", fn.path)) for b in copy.deepcopy(fn.blocks)]
     locals_ = list(fn.locals)
     debug = list(fn.debug)
